@@ -98,7 +98,7 @@ def unit_cases(tier):
 def params(tier):
     if tier == 'quick':
         return dict(values=(F.V3, F.V2), maxdepth=7, max_transitions=600, validate='first')
-    return dict(values=(F.V3, F.V3), maxdepth=10, max_transitions=100000, validate='all')
+    return dict(values=(F.V3, F.V3), maxdepth=10, max_transitions=12000, validate='first')
 
 
 def shards(tier):
